@@ -581,7 +581,7 @@ META = {
              '[i*s, i*s+b) containing p; windows are constructed as (i*s, i*s+b) for first..last inclusive; the two copies '
              'agree; the out-of-bounds rejection equals "not keepOverBounds and (start<0 or end>contig length)" on every '
              'ordering; the binned value is the read\'s own bin tag. Does NOT decide totals over a BAM (filter semantics are C11).'),
-    'technique': 'static analysis: rounding-bound abstract domain over quotient linear forms, sibling cross-check, exhaustive ordering enumeration of the bounds predicate',
+    'technique': 'static analysis: rounding-bound abstract domain over quotient linear forms, sibling cross-check, exhaustive ordering enumeration of the bounds predicate; exhaustive small-scope evaluation of both copies of the window arithmetic (coordinate 0..40, bin size and increment 1..7) where the symbolic reading cannot follow; effect check of the table accumulation',
     'design_ref': 'DESIGN.md section 5, C10',
 }
 
